@@ -50,6 +50,8 @@ def make_fixtures(origin):
         @staticmethod
         def decode(params: dict):
             m = DModel(params.get("tag"))
+            if params.get("done"):         # the description of a finished run (loaded for analysis): the model is marked complete
+                m.complete()
             EVENTS.append(("model", params.get("tag"), origin))
             CURRENT["model"] = m
             return m
@@ -135,6 +137,8 @@ def build_description(spec, di):
     use_mod = _PerEntry(spec)
     desc = {"model": _mod({"name": "DModel", "params": {"tag": f"d{di}"}}, use_mod), "systems": [], "agents": []}
     hooks = spec.get("hooks", {})
+    if spec.get("done"):
+        desc["model"]["params"]["done"] = True
     if hooks.get("pre_model"):
         desc["pre_model_decode"] = _mod({"func": "hook", "params": {"key": f"d{di}:pre_model"}}, use_mod)
     if hooks.get("post_model"):
@@ -327,6 +331,9 @@ def run_case(case):
                        if sd["params"].get("start", 0) <= 0 <= sd["params"].get("end", sys.maxsize)
                        and (0 - sd["params"].get("start", 0)) % sd["params"].get("frequency", 1) == 0]
                 want_exec = [("exec", f"sys{si}") for _, si in sorted(due)]
+                if desc["model"]["params"].get("done"):
+                    want_exec = []          # a completed model does not step
+                    labels.add("model-born-complete")
                 if list(EVENTS) != want_exec:
                     raise Violation("execution-order", f"{where}: first timestep ran {list(EVENTS)}, expected {want_exec}")
                 nh = sum(1 for k in ("pre_model_decode", "post_model_decode") if k in desc) + \
@@ -370,10 +377,10 @@ def strategy(tier):
                                     "end": wone_of(st.none(), st.integers(-1, 9)), "pre": st.booleans(), "post": st.booleans()})
     group = st.fixed_dictionaries({"n": st.integers(0, 4), "pre": st.booleans(), "post": st.booleans(), "junk": st.sampled_from([False, False, True]),
                                    "swap": st.sampled_from([False, False, False, True])})
-    desc = st.fixed_dictionaries({"nest_at": st.sampled_from([None, None, None, 0, 1, 2, 3, 5]), "key_order": st.sampled_from([0, 0]) | st.integers(0, 119), "mix": st.sampled_from([0, 0, 0]) | st.integers(0, 2 ** 12 - 1), "systems": st.lists(system, max_size=4), "groups": st.lists(group, max_size=4),
+    desc = st.fixed_dictionaries({"done": st.sampled_from([0, 0, 0, 0, 0, 1]), "nest_at": st.sampled_from([None, None, None, 0, 1, 2, 3, 5]), "key_order": st.sampled_from([0, 0]) | st.integers(0, 119), "mix": st.sampled_from([0, 0, 0]) | st.integers(0, 2 ** 12 - 1), "systems": st.lists(system, max_size=4), "groups": st.lists(group, max_size=4),
                                   "hooks": st.fixed_dictionaries({"pre_model": st.booleans(), "post_model": st.booleans()}),
                                   "module": st.sampled_from([True, True, False])})
-    rich = st.fixed_dictionaries({"nest_at": st.sampled_from([None, None, None, 0, 1, 2, 3, 5]), "key_order": st.sampled_from([0, 0]) | st.integers(0, 119), "mix": st.sampled_from([0, 0, 0]) | st.integers(0, 2 ** 12 - 1), "systems": st.lists(system, min_size=2, max_size=4), "groups": st.lists(group, min_size=2, max_size=4),
+    rich = st.fixed_dictionaries({"done": st.sampled_from([0, 0, 0, 0, 0, 1]), "nest_at": st.sampled_from([None, None, None, 0, 1, 2, 3, 5]), "key_order": st.sampled_from([0, 0]) | st.integers(0, 119), "mix": st.sampled_from([0, 0, 0]) | st.integers(0, 2 ** 12 - 1), "systems": st.lists(system, min_size=2, max_size=4), "groups": st.lists(group, min_size=2, max_size=4),
                                   "hooks": st.fixed_dictionaries({"pre_model": st.booleans(), "post_model": st.booleans()}),
                                   "module": st.sampled_from([True, True, False])})
     from vf.fixtures import near_pow2
